@@ -6,9 +6,10 @@ SPEC = {
         "k*10+2": "send k: value that reached the resolver differs from the model's parse result",
         "k*10+3": "send k: number of resolver calls differs from the two-phase machine (1 after Ok, 0 after a rejection)",
     },
-    "corr_name": "Args.Model (vtj, apply_defaults, parse, prepare) vs graphql.Parse / PrepareQuery / Execute with reflect-built argument structs",
+    "corr_name": "Args.Model (parse_doc: defaults, then fragment bodies, then the operation; vtj; parse; prepare) vs graphql.Parse / PrepareQuery / Execute with reflect-built argument structs, field in the operation body, a named fragment or an inline fragment",
     "coq_modules": ["Args.Model", "Args.Spec", "Args.Codec", "Args.Proofs", "Args.ProofsReject", "Args.ProofsInst", "Args.ProofsSubst", "Args.ProofsTotal", "Args.ProofsDoc", "Gen.ArgParsers", "Args.Table"],
     "harness_timeout": {"quick": 600, "thorough": 3000},
+    "search": {"n": 6000, "timeout": 900},
     "trusted_base": [
         "Coq 8.16.1 kernel and vm_compute (no native_compute); Print Assumptions: closed under the global context",
         "hand-written model coq/theories/Args/Model.v of graphql/parser.go (valueToJson, argsToJson, variable defaults), "
@@ -29,6 +30,8 @@ SPEC = {
         "argument types are well formed: enum names and struct field names unique, no pointer to pointer, "
         "`optional` only on struct fields (what schemabuilder accepts)",
         "JSON objects have unique keys (Go maps)",
+        "documents pass detectCyclesAndUnusedFragments / detectConflicts (not modelled); a self-referencing input struct is unfolded "
+        "into the finite type language to depth 3 and the generator keeps values above that depth",
     ],
     "manifest": {
         "text": "Coq theorems (Props/C18.v) over an executable model of valueToJson, variable defaults and every argument "
@@ -36,7 +39,10 @@ SPEC = {
                 "graphql.Parse/PrepareQuery/Execute on reflect-built argument structs sent by literal, variable, nested "
                 "variable and default on every run (correspondence), and the property itself (echo = sent, literal = variable, "
                 "default iff no non-null value, malformed input rejected as a client error with zero resolver calls) is "
-                "evaluated on the implementation's own outputs (oracle).",
+                "evaluated on the implementation's own outputs (oracle), through the direct Parse/PrepareQuery/Execute sequence, "
+                "graphql.HTTPHandler and the websocket subscribe / mutate handlers. When model and implementation disagree without an "
+                "oracle failure, 6000 variants of the disagreeing cases (boundary values of every width, other transports and places, "
+                "null/omitted variants) are searched for a failing input.",
         "note": "Trusted: Coq kernel + vm_compute; the hand-written model (tied to the code only by the correspondence check); "
                 "the Go harness and its type catalogue; graphql-go's lexer/parser, encoding/json, base64 and time.Parse are "
                 "modelled as functions with round-trip hypotheses. Integers |z| <= 2^53 and within width; out-of-range "
